@@ -111,7 +111,7 @@ func Check(cfg Config, prop string) int {
 		if !hasProp(o.Props, prop) {
 			return false
 		}
-		return cfg.Tier == "thorough" || o.Label != "return-reachable"
+		return true
 	}, outDir)
 
 	known := loadKnown(cfg)
@@ -127,6 +127,8 @@ func Check(cfg Config, prop string) int {
 	}
 	var fnames []string
 	nObl, nDis, nCover, nCoverOK, nDead, nInconcl := 0, 0, 0, 0, 0, 0
+	deadBy := map[string]int{}
+	deadJobs := map[string][]*Job{}
 	bySolver := map[string]int{}
 	var solverTime time.Duration
 	var slowest *Job
@@ -155,6 +157,8 @@ func Check(cfg Config, prop string) int {
 				nCoverOK++
 			case "dead-path":
 				nDead++
+				deadBy[j.O.Func]++
+				deadJobs[j.O.Func] = append(deadJobs[j.O.Func], j)
 			case "cover-inconclusive":
 				nInconcl++
 			case "cover-vacuous":
@@ -175,6 +179,26 @@ func Check(cfg Config, prop string) int {
 		}
 		g := addGroup(&group{Key: j.O.Func + "|" + j.O.Kind + "|" + j.O.Label, Func: j.O.Func, Kind: j.O.Kind, Label: j.O.Label, Source: j.O.Source, Unit: unitOf[j.X]})
 		g.Jobs = append(g.Jobs, j)
+	}
+	// vacuity guard: a return path whose facts are contradictory proves everything below it. Infeasible paths exist in
+	// correct code too, so the number found per function on the reviewed tree is kept in dead_paths_baseline.json;
+	// more than that is reported.
+	baseline := map[string]int{}
+	if data, err := os.ReadFile(filepath.Join(cfg.Verif, "dead_paths_baseline.json")); err == nil {
+		_ = json.Unmarshal(data, &baseline)
+	}
+	if os.Getenv("GOVC_DEADPATHS") != "" {
+		for f, n := range deadBy {
+			fmt.Printf("DEADPATHS %q: %d,\n", f, n)
+		}
+	}
+	for f, n := range deadBy {
+		if n > baseline[f] {
+			g := addGroup(&group{Key: f + "|vacuity|unexpected-dead-path", Func: f, Kind: "vacuity", Label: "unexpected-dead-path", Unit: nil,
+				Source: fmt.Sprintf("at most %d return paths of %s are infeasible (reviewed baseline)", baseline[f], f),
+				Reason: fmt.Sprintf("%d return paths have contradictory facts; obligations on such a path hold vacuously", n)})
+			g.Jobs = append(g.Jobs, deadJobs[f]...)
+		}
 	}
 	// obligation count must be non-zero for a claimed property
 	if nObl == 0 && len(groups) == 0 {
